@@ -3,10 +3,11 @@ EXTENDS Variants
 
 \* the treatment the protocol gives each uncovered field (after the repairs of DESIGN section 5)
 PolicyRepaired ==
-  [ userSend        |-> [changesHash |-> "verified", basePlasma |-> "normalised", totalPlasma |-> "normalised", publicKey |-> "verified", signature |-> "verified"],
-    userReceive     |-> [changesHash |-> "verified", basePlasma |-> "normalised", totalPlasma |-> "normalised", publicKey |-> "verified", signature |-> "verified"],
+  [ userSend        |-> [changesHash |-> "verified", basePlasma |-> "normalised", totalPlasma |-> "normalised", publicKey |-> "verified", signature |-> "verified", signatureTrailing |-> "verified"],
+    userReceive     |-> [changesHash |-> "verified", basePlasma |-> "normalised", totalPlasma |-> "normalised", publicKey |-> "verified", signature |-> "verified", signatureTrailing |-> "verified"],
+    contractCall    |-> [dirtyPadding |-> "verified", trailingBytes |-> "verified", signatureTrailing |-> "verified"],
     contractReceive |-> [changesHash |-> "verified", basePlasma |-> "verified", totalPlasma |-> "verified", descendantBody |-> "verified", descendantPlasma |-> "verified"],
-    momentum        |-> [publicKey |-> "verified", signature |-> "verified"] ]
+    momentum        |-> [publicKey |-> "verified", signature |-> "verified", signatureTrailing |-> "verified"] ]
 
 \* the code as found: a user block's changes hash is stored as delivered (F7), a contract receive's
 \* descendant bodies and plasma fields are stored as delivered (F8)
